@@ -92,20 +92,27 @@ def kf_nla_pass(group_systems):
     return any(not A.first_pass_complete(s) for s in group_systems)
 
 
-def kf_dependency_retarget(system, impl_line):
-    """matcher of C05-dependency-lost-on-retarget: a computed class whose initial value sits on another variable
-    than the one the analyser ends up tracking (initialising variable != primary variable)"""
-    f = fields(impl_line)
-    for key, n in (("S", 4), ("V", 5)):
-        for it in f.get(key, "").split(";"):
-            if not it:
-                continue
-            p = it.split(":")
-            prim, ini = p[0], p[n - 2]
-            typ = "state" if key == "S" else p[1]
-            if typ != "constant" and ini not in ("-", prim):
-                return True
-    return False
+def kf_dependency_retarget(system, eq_ids):
+    """matcher of C05-dependency-lost-on-retarget: every equation whose dependency list is wrong mentions a class
+    that is known before it is computed (it carries an initial value) and has variables in several components, so
+    that the analyser re-targets its tracked variable after dependencies on it were recorded"""
+    members, inited = {}, set()
+    for ci, c in enumerate(system["comps"]):
+        for v in c["vars"]:
+            members.setdefault(v["cls"], set()).add(ci)
+            if v["init"] is not None:
+                inited.add(v["cls"])
+    risky = {k for k, cs in members.items() if len(cs) >= 2 and k in inited}
+    found = 0
+    for c in system["comps"]:
+        byname = {v["name"]: v["cls"] for v in c["vars"]}
+        for q in c["eqs"]:
+            if q["id"] in eq_ids:
+                found += 1
+                names = A.expr_names(q["lhs"]) + A.expr_names(q["rhs"])
+                if not any(byname[n] in risky for n in names):
+                    return False
+    return found == len(eq_ids) and found > 0
 
 
 def kf_nla_split(impl_line):
@@ -228,14 +235,17 @@ def run(ctx):
         # ---- oracle (a): well-formedness of the real AnalyserModel (AnalysisSpec.wf_failures, extracted)
         w = wf_impl[i]
         if w not in ("WF=ok", "WF=na"):
-            codes = w[3:].split(",") if w.startswith("WF=") else ["?"]
+            wf_fields = fields(w)
+            codes = wf_fields["WF"].split(",") if "WF" in wf_fields else ["?"]
+            bad_deps = set(int(x) for x in wf_fields.get("DEPS", "").split("+") if x)
             for code in codes:
                 bump("wf_clauses_failing_on_impl", WF_NAMES.get(code, code))
             demanded = [x for x in codes if x in WF_DEMANDED or x == "?"]
-            if "4" in demanded and kf_dependency_retarget(s, c) and ctx.known_finding(
+            if ("4" in demanded or "41" in demanded) and kf_dependency_retarget(s, bad_deps) and ctx.known_finding(
                     "C05-dependency-lost-on-retarget",
-                    "an equation does not depend on the equation computing a variable it reads (initial value on another member): %s" % A.to_model_line(s)[:80]):
-                demanded.remove("4")
+                    "an equation's dependencies are not the equations computing the variables it reads (equations %s): %s" % (
+                        sorted(bad_deps), A.to_model_line(s)[:80])):
+                demanded = [x for x in demanded if x not in ("4", "41")]
             if "3" in demanded and kf_nla_split(c) and ctx.known_finding(
                     "C05-nla-system-split",
                     "a variable is computed by NLA equations of different NLA systems: %s" % A.to_model_line(s)[:80]):
@@ -315,6 +325,18 @@ def run(ctx):
             if bad:
                 violation("C05 oracle: ground truth: %s" % bad, "truth", payload(i, {"expected": tr}))
 
+    # ---- exhaustive search on the extracted model: order dependence of small systems
+    searches = [(3, 3)] if quick else [(4, 3), (3, 4)]
+    ctx.cov["exhaustive_search"] = []
+    for k, n in searches:
+        rc, out = vf.sh([mdl, "search", str(k), str(n)], timeout=3000)
+        line = next((l for l in out.split("\n") if l.startswith("SEARCH")), "")
+        f = dict(x.split("=", 1) for x in line.split(" ") if "=" in x and not x.startswith("smallest"))
+        ctx.cov["exhaustive_search"].append(line)
+        ctx.log(line[:230])
+        if not line or int(f.get("order_dependent_with_a_complete_first_pass", "1")) != 0 or int(f.get("first_pass_completeness_depends_on_order", "1")) != 0:
+            violation("C05 model: a system solved by the first pass alone is order dependent (the stated sub-domain of invariance is wrong)",
+                      "search", {"search": line})
     for what, name, content in late:
         violation(what, name, content)
     if mismatch:
@@ -331,6 +353,7 @@ def run(ctx):
                        "with >= 2 member variables or an ODE or a non-isolated equation); distinct by abstract system text + naming" % n_systems)
     k = len(flat) // 3
     ctx.cov["samples"] = [mlines[0], mlines[k], {"cellml": A.to_cellml(flat[k][3], A.Naming(flat[k][4])), "impl": impl[k]}]
+    ctx.cov["exhaustive"] = False
     ctx.cov["input_distribution"] = hist
     ctx.log("model types %s" % hist["model_type"])
     ctx.log("wf clauses failing on the implementation: %s" % hist["wf_clauses_failing_on_impl"])
